@@ -70,6 +70,17 @@ def _run(prop, repo, tier):
     from ..driver import check_append_order
 
     check_append_order(prop, res, repo, parts=("indicator", "hexital"))
+    # the formulas are definitions over the candle fields as given: the row converters hand every slot over unchanged
+    from .c19 import check_converters
+
+    check_converters(prop, res, repo, rule="R-INPUT")
+    # a merged bucket loses its readings (volume-weighted formulas read the volume a merge changes)
+    from ..driver import check_merge
+
+    check_merge(prop, res, repo)
+    from ..framework_rules import check_config_passthrough
+
+    check_config_passthrough(prop, res, repo)
     res.universe = {"classes": GROUPS[prop]}
     return res, cas
 
